@@ -310,4 +310,48 @@ theorem finish_tied {p k : Nat} {vals : List α} {a : PRAcc σ α} (h : Tied p k
       have : (live a.store).length = vals.length := by rw [← hvals, List.length_map]
       omega), hvals]
 
+/-! ## partitions of at most one element (singleton partitions thinned out by an upstream `filter`) -/
+
+theorem tied_create (p k : Nat) (s0 : σ) : Tied p k ([] : List α) (create k s0 : PRAcc σ α) := by
+  refine ⟨wf_create k s0, rfl, ?_, ?_, ?_, ?_⟩ <;> simp [create, live]
+
+/-- merging the accumulator of an EMPTY partition changes nothing (no live item moves, nothing to trim) -/
+theorem merge_create_right (k : Nat) (s0 : σ) (a : PRAcc σ α) (hk : a.k = k) (hk0 : k ≠ 0)
+    (hal : a.alive ≤ k) : merge a (create k s0) = a := by
+  have hk0' : ¬ a.k = 0 := by omega
+  have hno : ¬ a.alive > max a.k k := by omega
+  simp only [merge, create, moveLive, drainHeap, List.length_nil, beq_iff_eq, hk0', ↓reduceIte, trim]
+  rw [trimLoop_noop _ _ (by simpa using hno)]
+  cases a
+  simp only [PRAcc.mk.injEq, and_true] at hk ⊢
+  omega
+
+theorem tied_alive_le {p k : Nat} {vals : List α} {a : PRAcc σ α} (h : Tied p k vals a) : a.alive ≤ k := by
+  have := h.len
+  rw [← h.vals_eq, List.length_map] at this
+  rw [h.wf.alive_eq]; exact this
+
+/-- every partition holds at most one element: the merged accumulator keeps the last `k` values seen -/
+theorem tied_foldl_small (next : σ → Nat × σ) (k : Nat) (s0 : σ) (hk : 1 ≤ k) :
+    ∀ (ps : List (List α)) (vals : List α) (a : PRAcc σ α), (∀ q ∈ ps, q.length ≤ 1) →
+      Tied (next s0).1 k vals a →
+      Tied (next s0).1 k (lastK k (vals ++ ps.flatten))
+        ((ps.map ((reservoir next k s0).foldAdd (reservoir next k s0).create)).foldl merge a)
+  | [], vals, a, _, h => by
+    simpa [lastK_of_length_le k vals h.len] using h
+  | q :: ps, vals, a, hq, h => by
+    have hps : ∀ q' ∈ ps, q'.length ≤ 1 := fun q' hq' => hq q' (List.mem_cons_of_mem _ hq')
+    have hq1 := hq q List.mem_cons_self
+    match q, hq1 with
+    | [], _ =>
+      have hm : merge a (reservoir next k s0).create = a :=
+        merge_create_right k s0 a h.k_eq (by omega) (tied_alive_le h)
+      have := tied_foldl_small next k s0 hk ps vals a hps h
+      simpa [hm] using this
+    | [x], _ =>
+      have h1 := tied_merge_single next k s0 x hk h
+      have h2 := tied_foldl_small next k s0 hk ps _ _ hps h1
+      rw [lastK_lastK_append] at h2
+      simpa [fold_single next k s0 x hk] using h2
+
 end IB.Sampling
